@@ -30,7 +30,7 @@ type Machine struct {
 	Vars                       map[string]machine.Value
 	UnresolvedResources        []program.Resource
 	Resources                  []machine.Value // Constants and Variables
-	UnresolvedResourceBalances map[string]int
+	UnresolvedResourceBalances map[string]map[string]int
 	resolveCalled              bool
 	Balances                   map[machine.AccountAddress]map[machine.Asset]*machine.MonetaryInt // keeps track of balances throughout execution
 	Stack                      []machine.Value
@@ -63,7 +63,7 @@ func NewMachine(p program.Program) *Machine {
 		Postings:                   make([]Posting, 0),
 		TxMeta:                     map[string]machine.Value{},
 		AccountsMeta:               map[machine.AccountAddress]map[string]machine.Value{},
-		UnresolvedResourceBalances: map[string]int{},
+		UnresolvedResourceBalances: map[string]map[string]int{},
 	}
 
 	return &m
@@ -496,14 +496,15 @@ func (m *Machine) ResolveBalances(ctx context.Context, store Store) error {
 	assignBalanceAsResource := map[string]map[string]int{}
 
 	balancesQuery := BalanceQuery{}
-	for address, resourceIndex := range m.UnresolvedResourceBalances {
-		monetary := m.Resources[resourceIndex].(machine.Monetary)
-		balancesQuery[address] = append(balancesQuery[address], string(monetary.Asset))
+	for address, byAsset := range m.UnresolvedResourceBalances {
+		for asset, resourceIndex := range byAsset {
+			balancesQuery[address] = append(balancesQuery[address], asset)
 
-		if _, ok := assignBalanceAsResource[address]; !ok {
-			assignBalanceAsResource[address] = map[string]int{}
+			if _, ok := assignBalanceAsResource[address]; !ok {
+				assignBalanceAsResource[address] = map[string]int{}
+			}
+			assignBalanceAsResource[address][asset] = resourceIndex
 		}
-		assignBalanceAsResource[address][string(monetary.Asset)] = resourceIndex
 	}
 
 	m.Balances = make(map[machine.AccountAddress]map[machine.Asset]*machine.MonetaryInt)
@@ -557,6 +558,16 @@ func (m *Machine) ResolveBalances(ctx context.Context, store Store) error {
 					m.Balances[machine.AccountAddress(account)] = make(map[machine.Asset]*machine.MonetaryInt)
 				}
 				m.Balances[machine.AccountAddress(account)][machine.Asset(asset)] = machine.NewMonetaryIntFromBigInt(balance)
+			}
+		}
+	}
+
+	// a store may leave out the balances it has no record of: they are zero
+	for _, byAsset := range assignBalanceAsResource {
+		for _, resourceIndex := range byAsset {
+			if monetary := m.Resources[resourceIndex].(machine.Monetary); monetary.Amount == nil {
+				monetary.Amount = machine.NewMonetaryInt(0)
+				m.Resources[resourceIndex] = monetary
 			}
 		}
 	}
@@ -615,7 +626,6 @@ func (m *Machine) ResolveResources(ctx context.Context, store Store) error {
 			acc, _ := m.getResource(res.Account)
 			address := string((*acc).(machine.AccountAddress))
 			involvedAccountsMap[machine.Address(idx)] = address
-			m.UnresolvedResourceBalances[address] = idx
 
 			ass, ok := m.getResource(res.Asset)
 			if !ok {
@@ -628,6 +638,12 @@ func (m *Machine) ResolveResources(ctx context.Context, store Store) error {
 					"variable '%s': tried to request account balance for an asset on wrong entity: %v instead of asset",
 					res.Name, (*ass).GetType())
 			}
+
+			// one entry per (account, asset): several variables may read balances of the same account
+			if _, ok := m.UnresolvedResourceBalances[address]; !ok {
+				m.UnresolvedResourceBalances[address] = map[string]int{}
+			}
+			m.UnresolvedResourceBalances[address][string((*ass).(machine.Asset))] = idx
 
 			val = machine.Monetary{
 				Asset: (*ass).(machine.Asset),
